@@ -79,6 +79,45 @@ CHECKS = {
    technique="Lean 4 proof of the selection/assembly/rigidity logic + regenerated decision structure + scripted and "
              "trace-driven correspondence; solver behaviour as validated oracle contracts",
    ref="DESIGN.md §4 C11"),
+ "C14": dict(
+   text="Proved: collecting worker results by task index is independent of the completion order and worker count "
+        "(= List.map, for every permutation of the completions); the parallel round equals merging the per-pair "
+        "outcomes in list order with failed searches skipped, for every completion order; every `set` the current "
+        "source builds (regenerated site scanner) is on the justified list - int / int-tuple elements, or the two "
+        "string sets of get_permutable_groups whose order is irrelevant by C11_group_order_irrelevant. Runtime "
+        "differential: the real fork pool and the real parallel round under 1-16 workers with injected delays "
+        "(observed completion order fed to the model), and seeded standard/atomic pipelines in separate "
+        "interpreters under PYTHONHASHSEED 0,1,2,random compared by byte digest.",
+   note="PARTIAL: CPython hashing, fork and OS scheduling are runtime behaviour that no theorem exhibits; they are "
+        "oracle contracts validated by the differential runs on every check.",
+   technique="Lean 4 proof (schedule-independence of slot collection and merge) + regenerated hash-site scanner bridge "
+             "+ runtime differential across workers, delays and hash seeds",
+   ref="DESIGN.md §4 C14"),
+ "C18": dict(
+   text="Lean: executable closure = ReflTransGen reachability; unconnected set = complement of the first arg-min's "
+        "component; cumulative descending edge removal = filter at the current threshold; connected at E iff a path "
+        "with all TS <= E; disconnection height within one scan step below the minimax value when inside the window, "
+        "sentinel otherwise; hierarchy partitions every level and nests in the parent; roughness non-negative, zero "
+        "for < 2 minima, invariant under renumbering and energy shift, linear in the energy scale. Scan constants and "
+        "operators regenerated from the source (bridge); pure correspondence on real networks (exact dyadic windows "
+        "and float windows with near-tie skipping).",
+   note="minimax is characterised as the least threshold admitting a path; populations (exp/norm) are abstract "
+        "non-negative inputs; binary64 observed by the correspondence.",
+   technique="Lean 4 proof (reachability, scan = filter, height within one step, partition refinement, roughness algebra) "
+             "+ regenerated constants bridge + pure differential correspondence",
+   ref="DESIGN.md §4 C18"),
+ "C17": dict(
+   text="Lean theorems over an aliasing-faithful model of the four selectors, fill, truncation and select_batch, for "
+        "any sorting permutation returned by argsort: no excluded minimum, no repeat, size <= requested, fixed size "
+        "filled when enough allowed minima exist, coordinates of the listed minima, Lowest sorted, Monotonic iff "
+        "characterisation, Barrier pairwise separation and completeness, Topographical = Monotonic then Barrier; the "
+        "repaired scan window covers every minimax value between the lowest minimum and the highest TS (negation "
+        "witness for the original window). Operators, skip tests, the e_range expression and dispatch strings are "
+        "regenerated from the source; exact-grid correspondence of all selectors on real networks.",
+   note="argsort is a validated oracle permutation; barrier clauses speak of the scanned height (C18 relates it to the "
+        "minimax barrier inside the window).",
+   technique="Lean 4 proof over the selector model + regenerated kernel bridge + exact-grid differential correspondence",
+   ref="DESIGN.md §4 C17"),
 }
 
 NOT_YET = {}
